@@ -46,6 +46,14 @@ def parse_and_validate_assignment(indices, array_shape, value_shape):
     # Reformat input indices
     indices, implied_shape, reverse, implied_shape_positions = parse_assignment_indices(indices, array_shape)
 
+    # ``reverse`` counts array dimensions; integer indices drop theirs from
+    # the implied shape, so translate to positions in the implied shape
+    implied_position = {}
+    for dim, index in enumerate(indices):
+        if not isinstance(index, int):
+            implied_position[dim] = len(implied_position)
+    reverse = [implied_position[i] for i in reverse]
+
     # Empty slices can only be assigned size 1 values
     if 0 in implied_shape and value_shape and max(value_shape) > 1:
         raise ValueError(
@@ -217,7 +225,9 @@ def setitem_array_expr(out_name, array, indices, value):
                 else:
                     block_index_size = None
                     n_preceding = None
-                    dim_1d_int_index = dim
+                    # position in the implied shape (integer indices drop out)
+                    dim_1d_int_index = len(block_indices_shape)
+                    index_1d_int = index
                     loc0_loc1 = loc0, loc1
 
                 if not is_dask_collection(index) and not block_index.size:
@@ -241,7 +251,7 @@ def setitem_array_expr(out_name, array, indices, value):
             j = i + offset
             if j == dim_1d_int_index:
                 value_indices[i] = value_indices_from_1d_int_index(
-                    indices[j], value_shape[i + value_offset], *loc0_loc1
+                    index_1d_int, value_shape[i + value_offset], *loc0_loc1
                 )
             else:
                 start = block_preceding_sizes[j]
